@@ -32,6 +32,8 @@ pub struct Replay {
     pub plan: Plan,
     #[serde(default)]
     pub extra: Extra,
+    #[serde(default)]
+    pub images: usize,
     pub expect: Viol,
 }
 
@@ -146,6 +148,9 @@ pub struct Opts {
     pub threads: usize,
     pub images_per_run: usize,
     pub tier: String,
+    /// each worker records the run index it is working on here (so that a process abort can be attributed)
+    pub status_dir: Option<String>,
+    pub only: Option<u64>,
 }
 
 pub fn plan_for(seed: u64, run: u64, prop: &str) -> Plan {
@@ -367,7 +372,8 @@ pub fn replay_file(path: &str) -> i32 {
     };
     let engine = engine_of(&rep.engine);
     let only = if rep.extra == Extra::None { None } else { Some(&rep.extra) };
-    let o = execute(&rep.plan, engine, 0, 0, only);
+    let (cs, im) = if only.is_none() { (mix(rep.seed, rep.run) ^ 0x5eed, rep.images) } else { (0, 0) };
+    let o = execute(&rep.plan, engine, cs, im, only);
     for k in &o.known {
         println!("{k}");
     }
@@ -519,15 +525,31 @@ pub fn explore(o: &Opts) -> i32 {
     let found = Mutex::new(Vec::<(u64, Viol, Extra)>::new());
     let known = Mutex::new(BTreeSet::<String>::new());
     let samples = Mutex::new(Vec::<serde_json::Value>::new());
+    if let Some(only) = o.only {
+        next.store(only, Ordering::Relaxed);
+    }
+    let last = o.only.map_or(o.runs, |x| x + 1);
+    let nthreads = if o.only.is_some() { 1 } else { o.threads };
+    if let Some(d) = &o.status_dir {
+        let _ = std::fs::create_dir_all(d);
+    }
+    let tid = AtomicU64::new(0);
     std::thread::scope(|s| {
-        for _ in 0..o.threads {
-            s.spawn(|| loop {
+        for _ in 0..nthreads {
+            s.spawn(|| {
+              let my = tid.fetch_add(1, Ordering::Relaxed);
+              let status = o.status_dir.as_ref().and_then(|d| std::fs::File::create(format!("{d}/t{my}")).ok());
+              loop {
                 if stop.load(Ordering::Relaxed) || start.elapsed().as_secs() >= o.max_secs {
                     break;
                 }
                 let i = next.fetch_add(1, Ordering::Relaxed);
-                if i >= o.runs {
+                if i >= last {
                     break;
+                }
+                if let Some(f) = &status {
+                    use std::os::unix::fs::FileExt;
+                    let _ = f.write_all_at(format!("{i:<20}").as_bytes(), 0);
                 }
                 let plan = plan_for(o.seed, i, &o.prop);
                 let out = execute(&plan, o.engine, mix(o.seed, i) ^ 0x5eed, o.images_per_run, None);
@@ -562,6 +584,11 @@ pub fn explore(o: &Opts) -> i32 {
                         stop.store(true, Ordering::Relaxed);
                     }
                 }
+              }
+              if let Some(f) = &status {
+                  use std::os::unix::fs::FileExt;
+                  let _ = f.write_all_at(format!("{:<20}", "done").as_bytes(), 0);
+              }
             });
         }
     });
@@ -576,7 +603,7 @@ pub fn explore(o: &Opts) -> i32 {
     let mut violations = 0;
     if let Some((i, v, pt)) = found.first().cloned() {
         violations = 1;
-        let rep = Replay { property: v.prop.clone(), engine: engine_name(o.engine).into(), seed: o.seed, run: i, plan: plan_for(o.seed, i, &o.prop), extra: pt, expect: v.clone() };
+        let rep = Replay { property: v.prop.clone(), engine: engine_name(o.engine).into(), seed: o.seed, run: i, plan: plan_for(o.seed, i, &o.prop), extra: pt, images: o.images_per_run, expect: v.clone() };
         let min_secs = if o.tier == "thorough" { 600 } else { 60 };
         let min = minimise(&rep, o.engine, o.images_per_run.max(50), min_secs);
         let dir = std::env::var("VERIF_REPLAY_DIR").unwrap_or("/verif/replays".into());
@@ -674,8 +701,71 @@ pub fn cli(args: &[String]) -> i32 {
                 threads: get("--threads").and_then(|s| s.parse().ok()).unwrap_or(16),
                 images_per_run: get("--images").and_then(|s| s.parse().ok()).unwrap_or(60),
                 tier,
+                status_dir: get("--status-dir"),
+                only: get("--only").and_then(|s| s.parse().ok()),
             };
             explore(&o)
+        }
+        Some("determinism") => {
+            // every plan executed twice (here on different worker threads) must produce the same
+            // backend op log, the same verdict and the same counters
+            let n: u64 = get("--runs").and_then(|s| s.parse().ok()).unwrap_or(300);
+            let seed = std::env::var("VERIF_SEED").ok().and_then(|s| s.parse().ok()).unwrap_or(DEFAULT_SEED);
+            let bad = AtomicU64::new(0);
+            let next = AtomicU64::new(0);
+            let props = ["C01", "C02", "C06", "C07", "C08", "C13", "C17", "C20"];
+            std::thread::scope(|sc| {
+                for _ in 0..8 {
+                    sc.spawn(|| loop {
+                        let i = next.fetch_add(1, Ordering::Relaxed);
+                        if i >= n * props.len() as u64 {
+                            break;
+                        }
+                        let prop = props[(i % props.len() as u64) as usize];
+                        let engine = match prop {
+                            "C01" | "C07" | "C13" => Engine::Crash,
+                            "C08" => Engine::Fault,
+                            _ => Engine::Conf,
+                        };
+                        let plan = plan_for(seed, i, prop);
+                        let a = execute(&plan, engine, mix(seed, i), 12, None);
+                        let b = std::thread::spawn({
+                            let plan = plan.clone();
+                            move || execute(&plan, engine, mix(seed, i), 12, None)
+                        })
+                        .join()
+                        .unwrap();
+                        let va = a.viol.as_ref().map(|v| (v.0.clone(), v.1.clone()));
+                        let vb = b.viol.as_ref().map(|v| (v.0.clone(), v.1.clone()));
+                        if a.hash != b.hash || va != vb || a.exec.api_calls != b.exec.api_calls || a.crash.images != b.crash.images {
+                            println!("NONDETERMINISM prop={prop} run={i}: oplog {:x}/{:x}", a.hash, b.hash);
+                            bad.fetch_add(1, Ordering::Relaxed);
+                        }
+                    });
+                }
+            });
+            let bad = bad.load(Ordering::Relaxed);
+            println!("determinism: {} plans x2, {bad} divergences", n * props.len() as u64);
+            if bad > 0 { 2 } else { 0 }
+        }
+        Some("mkreplay") => {
+            // a replay file for a run that killed the process (abort inside redb): plan only
+            let prop = get("--prop").unwrap_or("C04".into());
+            let seed = std::env::var("VERIF_SEED").ok().and_then(|s| s.parse().ok()).unwrap_or(DEFAULT_SEED);
+            let run: u64 = get("--run").and_then(|s| s.parse().ok()).unwrap_or(0);
+            let out = get("--out").unwrap_or("/tmp/replay.json".into());
+            let rep = Replay {
+                property: prop.clone(),
+                engine: get("--engine").unwrap_or("conf".into()),
+                seed,
+                run,
+                plan: plan_for(seed, run, &prop),
+                extra: Extra::None,
+                images: get("--images").and_then(|s| s.parse().ok()).unwrap_or(60),
+                expect: Viol { prop, tag: "process-abort".into(), detail: get("--detail").unwrap_or_default() },
+            };
+            std::fs::write(&out, serde_json::to_string_pretty(&rep).unwrap()).unwrap();
+            0
         }
         Some("dumpimage") => {
             // writes the final (cleanly closed) storage image of one run plus the model's contents
